@@ -104,7 +104,7 @@ def allowlist : List (Nat × Cls) := [
   (key! "SimTK::Random::RandomImpl::nextSeed", seedCounter),
   -- Random.cpp, verification hook (exists only in -DSIMBODY_VERIF builds): statically initialised to null and never
   -- written by the library; only a test harness that wants to inject a raw word sets it
-  (key! "SimTK_verif_forceRaw", constAfterInit),
+  (key! "SimTK_verif_forceRaw", verifHook),
   -- contact identities: monotone counters; ids are only compared for equality / used as map keys, relative order of the
   -- ids created by one simulation does not depend on the start value
   (key! "SimTK::ContactImpl::createNewContactId()::nextAvailableId", idCounter),
@@ -120,8 +120,9 @@ def allowlist : List (Nat × Cls) := [
   (key! "SimTK::ContactGeometry::Ellipsoid::Impl::classTypeId()::id", firstUseId), (key! "SimTK::ContactGeometry::HalfSpace::Impl::classTypeId()::id", firstUseId),
   (key! "SimTK::ContactGeometry::SmoothHeightMap::Impl::classTypeId()::id", firstUseId), (key! "SimTK::ContactGeometry::Sphere::Impl::classTypeId()::id", firstUseId),
   (key! "SimTK::ContactGeometry::Torus::Impl::classTypeId()::id", firstUseId), (key! "SimTK::ContactGeometry::TriangleMesh::Impl::classTypeId()::id", firstUseId),
-  -- CollisionDetectionAlgorithm.cpp: (type id, type id) ↦ algorithm object; filled with the built-in algorithms on
-  -- first lookup, same content whoever triggers it; user registration is an explicit API call
+  -- CollisionDetectionAlgorithm.cpp: (type id, type id) ↦ algorithm object; filled with the built-in algorithms by the
+  -- static initialiser of libSimTKmath (`staticInitializer = registerStandardAlgorithms()`), same content in every
+  -- process; user registration is an explicit API call
   (key! "SimTK::CollisionDetectionAlgorithm::algorithmMap", idempotentRegistry),
   -- printing / message buffers / output-file throttling of vendored optimizers (Ipopt banner flag, c-cmaes message
   -- buffers `s`, `sTestOutString`, write throttles), CFSQP output file pointer
@@ -263,6 +264,41 @@ theorem inventory_has_anchors :
     (Gen.statics.any (fun s => s.key == key! "SimTK::CollisionDetectionAlgorithm::algorithmMap")) = true ∧
     (Gen.statics.any (fun s => s.key == key! "SimTK::Pi")) = true ∧ 100 ≤ Gen.statics.length := by decide
 
+/-! ### cross-check with the sources
+
+A second, independent view of "mutable static storage": every `static` non-const object *declaration* found in the
+library sources by a deliberately simple regex scan (`Gen.sourceStatics`: comments and `#if 0` removed, `const` types and
+functions skipped) must be visible in the binary inventory under the same identifier — or be listed here with the
+reason why the compiler does not emit it.  A new `static` in the sources that the ELF scan does not show (wrong section
+list, stripped symbol table, renamed by the compiler) or that nobody reviewed breaks `source_statics_in_inventory`. -/
+
+/-- source-level statics that are legitimately absent from the binaries (key = `file:identifier`) -/
+def notEmitted : List Nat := [
+  -- Timing.cpp: inside `#if defined(_MSC_VER)` / `#elif SimTK_IS_APPLE_AND_MUST_DEFINE_CLOCK_GETTIME` (not this platform)
+  key! "SimTKcommon/src/Timing.cpp:ticksPerSec", key! "SimTKcommon/src/Timing.cpp:info",
+  -- IpDebug.hpp: members of DebugJournalistWrapper, compiled only with IP_DEBUG
+  key! "SimTKmath/Optimizers/src/IpOpt/IpDebug.hpp:indentation_level_", key! "SimTKmath/Optimizers/src/IpOpt/IpDebug.hpp:jrnl_",
+  -- CollisionDetectionAlgorithm.cpp: `static int staticInitializer = registerStandardAlgorithms();` write-only, removed
+  -- by the optimiser (its initialiser still runs and fills algorithmMap)
+  key! "SimTKmath/Geometry/src/CollisionDetectionAlgorithm.cpp:staticInitializer"
+]
+
+/-- a source-level static is accounted for -/
+def srcOk (s : SrcStatic) : Bool :=
+  Gen.statics.any (fun t => t.leaf == s.leaf) || notEmitted.contains s.fileLeaf
+
+set_option maxRecDepth 100000 in
+/-- **Second translator-tied obligation.**  Every `static` non-const object declared in the library sources appears in
+the binary inventory (hence has a reviewed class by `all_statics_classified`) or is a reviewed non-emitted exception. -/
+theorem source_statics_in_inventory : ∀ s ∈ Gen.sourceStatics, srcOk s = true := by decide
+
+set_option maxRecDepth 100000 in
+/-- the source scan is not vacuous -/
+theorem source_scan_has_anchors :
+    (Gen.sourceStatics.any (fun s => s.leaf == key! "nextSeed")) = true ∧
+    (Gen.sourceStatics.any (fun s => s.leaf == key! "err")) = true ∧
+    (Gen.sourceStatics.any (fun s => s.leaf == key! "algorithmMap")) = true ∧ 20 ≤ Gen.sourceStatics.length := by decide
+
 /-! ### isolation in the process model -/
 
 section Isolation
@@ -350,5 +386,95 @@ example : Isolated (fun (_ : Nat) => ()) (fun (_ : Nat) (g : Nat) (s : Nat) => (
   ⟨fun _ _ _ => rfl, fun _ _ _ _ _ => rfl⟩
 
 end Isolation
+
+/-! ### from the classification to isolation
+
+Here the globals are concrete: `G = Nat → V`, one value per object key of the inventory.  The role of a key is
+*computed from the allow-list* (`roleOf`), so re-classifying an object changes the statements below. -/
+
+/-- role of the object with key `k` according to the reviewed allow-list; a key that is not in the inventory is no
+static-storage object of the libraries (`all_statics_classified`), hence never written: `frozen` -/
+def roleOf (k : Nat) : Role :=
+  match allowlist.lookup k with
+  | some c => c.role
+  | none => .frozen
+
+/-- bump one global -/
+def upd (g : Nat → Nat) (k : Nat) : Nat → Nat := fun j => if j = k then g j + 1 else g j
+
+section Classes
+variable {V σ : Type}
+
+/-- **The assumptions that the hand review asserts**, stated per role (they are assumptions about the C++, named
+here so that nothing is hidden in prose):
+* `frozen_not_written`: no operation writes an object whose class has role `frozen`;
+* `irrelevant_not_read`: the result of an operation is the same for any two global states that agree on the
+  `frozen` objects, i.e. objects of role `irrelevant` (scratch, diagnostics, counters, ids, registries) never
+  influence a result. -/
+structure ClassAssumptions (op : Nat → (Nat → V) → σ → (Nat → V) × σ) : Prop where
+  frozen_not_written : ∀ i g s k, roleOf k = .frozen → (op i g s).1 k = g k
+  irrelevant_not_read : ∀ i g g' s, (∀ k, roleOf k = .frozen → g k = g' k) → (op i g s).2 = (op i g' s).2
+
+/-- the view of the globals determined by the classification: the values of the `frozen` objects -/
+def classView (g : Nat → V) : Nat → Option V := fun k => if roleOf k = .frozen then some (g k) else none
+
+theorem classView_eq_iff (g g' : Nat → V) : classView g = classView g' ↔ ∀ k, roleOf k = .frozen → g k = g' k := by
+  constructor
+  · intro h k hk
+    have := congrFun h k
+    simpa [classView, hk] using this
+  · intro h
+    funext k
+    by_cases hk : roleOf k = .frozen
+    · simp [classView, hk, h k hk]
+    · simp [classView, hk]
+
+/-- the per-class assumptions are exactly `Isolated` for the view computed from the allow-list -/
+theorem isolated_of_classes (op : Nat → (Nat → V) → σ → (Nat → V) × σ) (h : ClassAssumptions op) :
+    Isolated (classView (V := V)) op := by
+  refine ⟨?_, ?_⟩
+  · intro i g s
+    rw [classView_eq_iff]
+    intro k hk
+    exact h.frozen_not_written i g s k hk
+  · intro i g g' s hc
+    exact h.irrelevant_not_read i g g' s ((classView_eq_iff g g').mp hc)
+
+/-- **Isolation from the classification.**  If the library operations respect what the reviewed classes of the
+inventory assert, then inside any schedule instance `i` ends exactly where it ends alone, from any global state that
+agrees on the `frozen` objects. -/
+theorem interleaving_isolated_by_classes (op : Nat → (Nat → V) → σ → (Nat → V) × σ) (h : ClassAssumptions op)
+    (i : Nat) (sched : List Nat) (w : World (Nat → V) σ) (g0 : Nat → V)
+    (hg : ∀ k, roleOf k = .frozen → g0 k = w.g k) :
+    (run op w sched).inst i = (alone op i (count sched i) g0 (w.inst i)).2 :=
+  interleaving_isolated classView op (isolated_of_classes op h) i sched w g0 ((classView_eq_iff g0 w.g).mpr hg)
+
+/-- **Repeatability from the classification.** -/
+theorem repeat_deterministic_by_classes (op : Nat → (Nat → V) → σ → (Nat → V) × σ) (h : ClassAssumptions op)
+    (i n : Nat) (g : Nat → V) (s : σ) (w : World (Nat → V) σ) (between : List Nat) (hw : w.g = (alone op i n g s).1) :
+    (alone op i n (run op w between).g s).2 = (alone op i n g s).2 :=
+  repeat_deterministic classView op (isolated_of_classes op h) i n g s w between hw
+
+end Classes
+
+/-- the classification is what drives the assumptions: e.g. the seed counter and the contact-id counter are
+`irrelevant` (may change, must not be read by a result), `SimTK::Pi` and the verification hook are `frozen` -/
+theorem roles_of_some_objects :
+    roleOf (key! "SimTK::Random::RandomImpl::nextSeed") = .irrelevant ∧
+    roleOf (key! "SimTK::ContactImpl::createNewContactId()::nextAvailableId") = .irrelevant ∧
+    roleOf (key! "SimTK::AssemblyCondition::calcGoal(SimTK::State const&, double&) const::err") = .irrelevant ∧
+    roleOf (key! "SimTK::Pi") = .frozen ∧ roleOf (key! "SimTK_verif_forceRaw") = .frozen := by decide
+
+/-- non-vacuity of `ClassAssumptions`: an operation that bumps the seed counter (an `irrelevant` object) and
+advances its own instance state satisfies them -/
+example : ClassAssumptions (V := Nat) (σ := Nat)
+    (fun _ g s => (upd g (key! "SimTK::Random::RandomImpl::nextSeed"), s + 1)) := by
+  refine ⟨?_, fun _ _ _ _ _ => rfl⟩
+  intro i g s k hk
+  by_cases hkk : k = key! "SimTK::Random::RandomImpl::nextSeed"
+  · subst hkk
+    have : roleOf (key! "SimTK::Random::RandomImpl::nextSeed") = .irrelevant := roles_of_some_objects.1
+    rw [this] at hk; cases hk
+  · simp [upd, hkk]
 
 end C46
